@@ -34,7 +34,7 @@ def _execute(record, root):
     names = record["batch"]
     for k, e in enumerate(out):
         c = e["op"]["cfg"]
-        tag = f"solve {k} batch={names} {record['method']} conv={c['conv']} sp2={c['sp2']} eps={c['eps']} uhf={c['uhf']} start={e['start']}({e.get('from')}) cap={e['op'].get('cap')}"
+        tag = f"solve {k} batch={names} {record['method']} conv={c['conv']} sp2={c['sp2']} eps={c['eps']} uhf={c['uhf']} backward={c.get('backward', 0)} start={e['start']}({e.get('from')}) cap={e['op'].get('cap')}"
         stats["solves"] += 1
         if e.get("nonterminating"):
             failures.append(core.fail("nontermination", f"{tag}: no return within {scfsim.LINE_BUDGET} line events of library code; clock ran out at {e['nonterminating']}"))
@@ -54,6 +54,15 @@ def _execute(record, root):
                 if e["op"].get("cap", 1000) < 1000:
                     stats["probes"]["cap_reached"] = stats["probes"].get("cap_reached", 0) + 1
                 continue
+            if c["conv"][0] == 3:
+                stats["probes"]["krylov_solves_checked"] = stats["probes"].get("krylov_solves_checked", 0) + 1
+                if not scfsim.thermally_cold(c, r["gap"]):
+                    stats["probes"]["krylov_thermal_smearing_skipped"] = stats["probes"].get("krylov_thermal_smearing_skipped", 0) + 1
+                    continue
+            if record["method"] == "PM6":
+                stats["probes"]["pm6_d_molecules_checked"] = stats["probes"].get("pm6_d_molecules_checked", 0) + 1
+            if c.get("backward"):
+                stats["probes"][f"backward_{c['backward']}_molecules_checked"] = stats["probes"].get(f"backward_{c['backward']}_molecules_checked", 0) + 1
             stats["converged_molecules_checked"] += 1
             degenerate = r["gap"] < 1e-3
             mx["sym_over_tau"] = max(mx.get("sym_over_tau", 0.0), r["sym"] / tau)
@@ -75,7 +84,7 @@ def _execute(record, root):
         stats["probes"]["padded_batches"] = 1
     if any(scfsim.SPECIES[n][1] < 0 for n in names) and any(e["op"]["cfg"]["sp2"][0] for e in out) and "padded_batches" in stats["probes"]:
         stats["probes"]["sp2_padded_anion"] = 1
-    sig = [names, record["method"], [(e["op"]["cfg"]["conv"], e["op"]["cfg"]["sp2"], e["op"]["cfg"]["eps"], e["op"]["cfg"]["uhf"], e["start"], e["op"].get("cap")) for e in out]]
+    sig = [names, record["method"], [(e["op"]["cfg"]["conv"], e["op"]["cfg"]["sp2"], e["op"]["cfg"]["eps"], e["op"]["cfg"]["uhf"], e["op"]["cfg"].get("backward", 0), e["start"], e["op"].get("cap")) for e in out]]
     sample = {"session": record, "solves": [{"notconverged": e.get("notconverged"), "lines": e.get("lines"), "exc": e.get("exc"), "start": e["start"], "from": e.get("from")} for e in out]}
     dig = core.digest([[e.get("notconverged"), [round(v, 9) for v in (e.get("Etot") or [])]] for e in out])
     return core.Result.make(record, failures, stats, sig=sig, nontrivial=len(out) >= 2, sample=sample, digest_=dig)
@@ -91,7 +100,8 @@ class C03(core.Check):
         "residuals are computed from the returned density with the repository's own Fock builder (operator correctness is C06, not applicable here) and an independent torch.linalg.eigh re-diagonalisation",
         "tau = max(eps, 0.1 x SP2 tolerance clamped to its documented window) / (1 - alpha); bounds K x tau with K frozen at >= 10 x the worst calibrated value; they detect wrong or unconverged answers, not small regressions",
         "liveness budget: 5e6 line events of library code per solve (ordinary solves need 1e4 - 3.5e5)",
-        "molecule pool only (18 species incl. cations, anions, doublets, triplets); PM6 d-orbitals and GPU not reached",
+        "molecule pool only (21 species incl. cations, anions, doublets, triplets, H2S/HCl/SiH4); PM6 with d orbitals restricted only (the library has no unrestricted PM6); GPU not reached",
+        "the Krylov solver [3, {...}] is generated for restricted sp-basis batches without H2 / full-shell atoms (outside its domain) and checked where gap / (2 kB T_el) > 25 (no thermal smearing)",
     ]
 
     def plan(self, tier, seed):
